@@ -141,3 +141,22 @@ PROPS["C03"] = {
         {"test": "^TestGeneratorRequestsExactlyMissing$", "checks": 2500, "shards": 15, "timeout": 1500},
     ],
 }
+
+PROPS["C06"] = {
+    "pkg": "c06",
+    "technique": "property-based testing against an RFC 3550 reference model, with a gate clock that turns the interceptor's ticker into harness-controlled report instants",
+    "level_text": "Generated reception histories (packets, sender reports and report ticks at generated points; 2 000 quick / ~80 000 thorough) are driven through "
+                  "report.ReceiverInterceptor; the ticker goroutine is parked inside the injected now() so every report boundary falls at a known point, and each "
+                  "report is compared field by field with a model of extended highest, interval loss, cumulative loss, A.8 jitter (wrap-safe), LSR and DLSR. Exploration.",
+    "level_note": "trusts: the model; jitter tolerance +-2 units (float vs integer arrival arithmetic), DLSR +-1; spans between two reports stay within the "
+                  "8192-packet history as the statement says; reports for a stream that has not received anything yet are not judged",
+    "assumptions": ["reordering depth and span between reports < 8192 packets", "total model time < 18 h (DLSR range)"],
+    "quick": [
+        {"test": "^TestRegress", "timeout": 120},
+        {"test": "^TestReceiverReports$", "checks": 1000, "shards": 3, "timeout": 400},
+    ],
+    "thorough": [
+        {"test": "^TestRegress", "timeout": 120},
+        {"test": "^TestReceiverReports$", "checks": 5000, "shards": 15, "timeout": 1500},
+    ],
+}
